@@ -457,6 +457,10 @@ def apply(ex, ctx, st, f, args, dest_ty, term):
         return mk_ite(mk_bin('Ne', args[0], C(0, ty), ty, 'bool'), option_some(args[0]), OPTION_NONE), st
     if path in ('core::num::NonZero::<T>::get', 'core::num::nonzero::NonZero::<T>::get'):
         return args[0], st
+    if path.startswith('<core::num::NonZero<T> as core::cmp::Partial') and name in ('lt', 'le', 'gt', 'ge', 'eq', 'ne'):
+        x_, y_ = ex.load(st, args[0]), ex.load(st, args[1])
+        ty = ty_of(x_)
+        return mk_bin({'lt': 'Lt', 'le': 'Le', 'gt': 'Gt', 'ge': 'Ge', 'eq': 'Eq', 'ne': 'Ne'}[name], x_, y_, ty, 'bool'), st
     # ---- chars
     if path.startswith('core::char::methods::<impl char>::'):
         c0 = args[0]
@@ -614,6 +618,11 @@ def apply(ex, ctx, st, f, args, dest_ty, term):
     # ---- conversions -----------------------------------------------------------------------
     if dpath == 'core::convert::From::from' and path.startswith('core::convert::num::'):
         to = dest_ty['s'] if dest_ty else None
+        if to is None:
+            # a function item used as a value (`.map(usize::from)`): the impl's own path names the destination type
+            import re as _re
+            m_ = _re.search(r'From<\w+> for (\w+)>::from$', path)
+            to = m_.group(1) if m_ and m_.group(1) in INT_BITS or (m_ and m_.group(1) in ('f32', 'f64')) else None
         if to is None:
             raise Uncertified("numeric From without destination type")
         a = args[0]
@@ -858,6 +867,23 @@ def apply(ex, ctx, st, f, args, dest_ty, term):
     if dpath == 'core::iter::IntoIterator::into_iter' and ('for &' in path and ('[T; N]' in path or '[T]' in path)):
         elems = slice_elems(ex, st, args[0])
         return m_iter('SliceIter', agg(('array',), elems), C(0, 'usize')), st
+    if path in ('core::slice::<impl [T]>::chunks_exact', 'core::slice::<impl [T]>::chunks', 'core::slice::<impl [T]>::windows'):
+        r0 = args[0]
+        if r0[0] != 'ref' or args[1][0] != 'c' or args[1][1] <= 0:
+            raise Uncertified("%s with a symbolic size or receiver" % name)
+        n_ = ex.slice_len(st, r0)
+        if n_[0] != 'c':
+            raise Uncertified("%s over a slice of symbolic length" % name)
+        k_ = args[1][1]
+        tgt, win = r0[1], r0[2]
+        base = win[0] if win is not None else 0
+        if name == 'windows':
+            spans = [(base + i, k_) for i in range(0, n_[1] - k_ + 1)]
+        elif name == 'chunks_exact':
+            spans = [(base + i * k_, k_) for i in range(n_[1] // k_)]
+        else:
+            spans = [(base + i, min(k_, n_[1] - i)) for i in range(0, n_[1], k_)]
+        return m_iter('ArrayIter', agg(('array',), [mk('ref', tgt, sp) for sp in spans]), C(0, 'usize')), st
     if path == 'core::slice::<impl [T]>::contains':
         elems = slice_elems(ex, st, args[0])
         x = ex.load(st, args[1])
